@@ -172,34 +172,60 @@ func runC24(c *Ctx) {
 
 	// (2) grammar
 	info := bt.TypesInfo
-	type level struct{ fn, sub, tok, ctor string }
-	for _, lv := range []level{{"or", "and", "||", "or"}, {"and", "not", "&&", "and"}} {
+	// the levels and constructors are found by what they do (c24_names.go); `key` keeps the obligation names stable
+	c24ResolveNames(bt)
+	type level struct{ key, fn, sub, tok, ctor string }
+	isMethodCall := func(e ast.Expr, name string) bool {
+		call, ok := ast.Unparen(e).(*ast.CallExpr)
+		if !ok || len(call.Args) != 0 {
+			return false
+		}
+		se, ok := call.Fun.(*ast.SelectorExpr)
+		return ok && se.Sel.Name == name
+	}
+	for _, lv := range []level{{"or", c24Names.Or, c24Names.And, "||", c24Names.Ctor["OrExpr"]}, {"and", c24Names.And, c24Names.Not, "&&", c24Names.Ctor["AndExpr"]}} {
 		fd := p.MustFunc(rG, bt, "exprParser."+lv.fn)
 		if fd == nil {
 			continue
 		}
 		okFirst, okLoop, okBuild := false, false, false
+		var acc types.Object
 		for _, s := range fd.Body.List {
 			switch st := s.(type) {
 			case *ast.AssignStmt:
-				if strings.ReplaceAll(types.ExprString(st.Rhs[0]), " ", "") == "p."+lv.sub+"()" {
+				if len(st.Lhs) == 1 && len(st.Rhs) == 1 && isMethodCall(st.Rhs[0], lv.sub) {
 					okFirst = true
+					acc = identObj(info, st.Lhs[0])
 				}
 			case *ast.ForStmt:
-				if strings.ReplaceAll(types.ExprString(st.Cond), " ", "") == `p.tok=="`+lv.tok+`"` {
-					okLoop = true
+				if be, ok := ast.Unparen(st.Cond).(*ast.BinaryExpr); ok && be.Op == token.EQL {
+					for _, pr := range [][2]ast.Expr{{be.X, be.Y}, {be.Y, be.X}} {
+						se, ok1 := ast.Unparen(pr[0]).(*ast.SelectorExpr)
+						lit, ok2 := ast.Unparen(pr[1]).(*ast.BasicLit)
+						if ok1 && ok2 && se.Sel.Name == "tok" && lit.Value == `"`+lv.tok+`"` {
+							okLoop = true
+						}
+					}
 				}
 				for _, b := range st.Body.List {
-					if as, ok := b.(*ast.AssignStmt); ok && strings.ReplaceAll(types.ExprString(as.Rhs[0]), " ", "") == lv.ctor+"(x,p."+lv.sub+"())" && types.ExprString(as.Lhs[0]) == "x" {
+					as, ok := b.(*ast.AssignStmt)
+					if !ok || len(as.Lhs) != 1 || len(as.Rhs) != 1 || acc == nil || identObj(info, as.Lhs[0]) != acc {
+						continue
+					}
+					call, ok := ast.Unparen(as.Rhs[0]).(*ast.CallExpr)
+					if !ok || len(call.Args) != 2 {
+						continue
+					}
+					if id, ok := call.Fun.(*ast.Ident); ok && id.Name == lv.ctor && identObj(info, call.Args[0]) == acc && isMethodCall(call.Args[1], lv.sub) {
 						okBuild = true
 					}
 				}
 			}
 		}
-		c.Check(okFirst && okLoop && okBuild, rG, lv.fn, p.Pos(fd.Pos()), fmt.Sprintf("x := %s(); for tok == %q { x = %s(x, %s()) }", lv.sub, lv.tok, lv.ctor, lv.sub),
+		c.Check(okFirst && okLoop && okBuild, rG, lv.key, p.Pos(fd.Pos()), fmt.Sprintf("x := %s(); for tok == %q { x = %s(x, %s()) }", lv.sub, lv.tok, lv.ctor, lv.sub),
 			fmt.Sprintf("level %q of the grammar is not `x := p.%s(); for p.tok == %q { x = %s(x, p.%s()) }` (first=%v loop=%v build=%v): operator precedence or associativity changed", lv.fn, lv.sub, lv.tok, lv.ctor, lv.sub, okFirst, okLoop, okBuild))
 	}
-	if fd := p.MustFunc(rG, bt, "exprParser.not"); fd != nil {
+	if fd := p.MustFunc(rG, bt, "exprParser."+c24Names.Not); fd != nil {
 		// decided on the function's decision tree, not on its layout: every path is followed with the number of
 		// tokens lexed so far and what the tests on the path established about them
 		paths, why := c24NotPaths(fd)
@@ -213,7 +239,7 @@ func runC24(c *Ctx) {
 		c.Check(good, rG, "not", p.Pos(fd.Pos()), "! atom | atom, `!!` rejected", "the not level no longer parses `! atom | atom` with a double negation rejected; its paths are ["+strings.Join(paths, "; ")+"] "+why)
 	}
 	for ctor, typ := range map[string]string{"or": "OrExpr", "and": "AndExpr", "not": "NotExpr", "tag": "TagExpr"} {
-		fd := p.MustFunc(rG, bt, ctor)
+		fd := p.MustFunc(rG, bt, c24Names.Ctor[typ])
 		if fd == nil {
 			continue
 		}
@@ -249,6 +275,21 @@ func runC24(c *Ctx) {
 				if f := CalleeOf(li, call); f != nil && f.Name() == "Eval" && len(call.Args) == 1 {
 					evalVar = types.ExprString(as.Lhs[0])
 					pred, _ = call.Args[0].(*ast.FuncLit)
+					if pred == nil {
+						// a method value or a function of the package (`expr.Eval(p.matchBuildTag)`): read its declaration
+						var obj types.Object
+						switch a := ast.Unparen(call.Args[0]).(type) {
+						case *ast.SelectorExpr:
+							obj = li.ObjectOf(a.Sel)
+						case *ast.Ident:
+							obj = li.ObjectOf(a)
+						}
+						if fn, ok := obj.(*types.Func); ok && fn.Pkg() == ld.Types {
+							if hd := declOfFunc(ld, fn); hd != nil && hd.Body != nil {
+								pred = &ast.FuncLit{Type: hd.Type, Body: hd.Body}
+							}
+						}
+					}
 				}
 			}
 			return true
